@@ -105,7 +105,14 @@ def victim(ctx, P, views):
         maxcalls = [x for x in ast.walk(fn) if isinstance(x, ast.Call) and isinstance(x.func, ast.Name) and x.func.id in ("max", "min")]
         least = [x for x in maxcalls if "priority_class" in unparse(x) and "key" not in [k.arg for k in x.keywords]]
         pick = [x for x in maxcalls if any(k.arg == "key" for k in x.keywords)]
-        if len(least) != 1 or least[0].func.id != "max" or "self.servers" not in unparse(least[0]) or ".cust.priority_class" not in unparse(least[0]):
+        def whole_servers(call):
+            # max(<s>.cust.priority_class for <s> in self.servers): one generator over all the servers, no filter
+            a0 = call.args[0] if call.args else None
+            if not (isinstance(a0, (ast.GeneratorExp, ast.ListComp)) and len(a0.generators) == 1):
+                return False
+            g = a0.generators[0]
+            return unparse(g.iter) == "self.servers" and not g.ifs and isinstance(g.target, ast.Name) and unparse(a0.elt) == g.target.id + ".cust.priority_class"
+        if len(least) != 1 or least[0].func.id != "max" or not whole_servers(least[0]):
             problems.append(("least-priority", "the least priority in service must be max(s.cust.priority_class for s in self.servers)"))
         if len(pick) != 1 or pick[0].func.id != "max" or "service_start_date" not in unparse([k.value for k in pick[0].keywords if k.arg == "key"][0]):
             problems.append(("victim-most-recent", "the victim must be the most recently started (max service_start_date) of the least-priority customers"))
@@ -141,7 +148,15 @@ def victim(ctx, P, views):
             problems.append(("priority-comparison", "pre-empt iff newcomer.priority_class < least priority in service (strict): %s [%s]" % (cmp_bad[1], "; ".join(witness(cmp_bad[0])[:6]))))
         # the filter for the least-prioritised individuals uses equality with least
         comps = [x for x in ast.walk(fn) if isinstance(x, ast.ListComp) and "self.servers" in unparse(x)]
-        if not any(least_var and ("== %s" % least_var) in unparse(c) and unparse(c.elt).endswith(".cust") for c in comps):
+        def only_least(c):
+            # [<s>.cust for <s> in self.servers if <s>.cust.priority_class == least]: all servers, filtered by that equality alone
+            if len(c.generators) != 1 or not isinstance(c.generators[0].target, ast.Name):
+                return False
+            g = c.generators[0]
+            v_ = g.target.id
+            return (unparse(g.iter) == "self.servers" and unparse(c.elt) == v_ + ".cust" and len(g.ifs) == 1
+                    and guards.norm(g.ifs[0], unparse) == ("eq",) + tuple(sorted((v_ + ".cust.priority_class", least_var))))
+        if not any(least_var and only_least(c) for c in comps):
             problems.append(("least-filter", "candidates must be the customers whose priority_class == least priority"))
         pre = [x for x in ast.walk(fn) if isinstance(x, ast.Call) and call_name(x) == "preempt"]
         if len(pre) != 1 or len(pre[0].args) != 2 or unparse(pre[0].args[1]) != newcomer:
